@@ -1,5 +1,5 @@
 (* correspondence glue for C16: one constructor per decoder entry point *)
-From V Require Export Base.Hex Store.Codec Store.AppMeta Wire.PgMsg.
+From V Require Export Base.Hex Store.Codec Store.AppMeta Wire.PgMsg Wire.Stream.
 
 Definition txmd_eqb (a b : txmd) : bool :=
   opt_eqb N.eqb (md_trunc a) (md_trunc b) && opt_eqb bytes_eqb (md_extra a) (md_extra b).
@@ -58,6 +58,52 @@ Definition alloc_ok (model observed : N) : bool := observed <=? 4 * model + 4096
 Definition frame_eqb (a b : N * bytes * bytes) : bool :=
   let '(t, p, r) := a in let '(t', p', r') := b in (t =? t') && bytes_eqb p p' && bytes_eqb r r'.
 
+(* ---------------- pkg/stream receivers ---------------- *)
+(* switch to true when fixes/C16-stream-message-length.diff is committed in /repo *)
+Definition stream_is_fixed : bool := false.
+
+(* one step of the loop a stream handler runs on a msgReceiver: the byte strings it obtains *)
+Definition st_step := mrecv -> M (list bytes * mrecv).
+Definition rd_step (bs : N) : st_step := fun r =>
+  dom x <- mr_read stream_is_fixed bs r;
+  match x with (RD d, r') => mret ([d], r') | (REOF, _) => merr ESEOF end.
+Definition kv_step (bs : N) : st_step := fun r =>
+  dom x <- kv_next stream_is_fixed bs r; let '(k, r) := x in
+  dom y <- read_value_e stream_is_fixed bs r; let '(v, r) := y in
+  mret ([k; v], r).
+Definition z_step (bs : N) : st_step := fun r =>
+  dom x <- z_next stream_is_fixed bs r; let '(set, key, score, attx, r) := x in
+  dom y <- read_value_e stream_is_fixed bs r; let '(v, r) := y in
+  mret ([set; key; be_enc 8 score; be_enc 8 attx; v], r).
+Definition ve_step (bs : N) : st_step := fun r =>
+  dom x <- ventry_next stream_is_fixed bs r; let '(a, b, c, r) := x in
+  dom y <- read_value_e stream_is_fixed bs r; let '(v, r) := y in
+  mret ([a; b; c; v], r).
+Definition ea_step (bs : N) : st_step := fun r =>
+  dom x <- execall_next stream_is_fixed bs r; let '(op, r) := x in
+  match op with
+  | EKv key => dom y <- read_value_e stream_is_fixed bs r; let '(v, r) := y in mret ([[1]; key; v], r)
+  | EZAdd _ => mret ([[2]], r)
+  end.
+Definition st_step_of (kind bs : N) : st_step :=
+  if kind =? 0 then rd_step bs else if kind =? 1 then kv_step bs else if kind =? 2 then z_step bs
+  else if kind =? 3 then ve_step bs else ea_step bs.
+
+(* the handler loop: at most cap steps, stops at the first error / panic *)
+Fixpoint st_drive (step : st_step) (cap : nat) (r : mrecv) (acc : list (list bytes)) (al : N)
+  : list (list bytes) * bool * N :=
+  match cap with
+  | O => (rev acc, false, al)
+  | S c =>
+    let m := step r in
+    match fst m with
+    | Ok (item, r') => st_drive step c r' (item :: acc) (al + snd m)
+    | Err _ => (rev acc, false, al + snd m)
+    | Panic => (rev acc, true, al + snd m)
+    end
+  end.
+Definition items_eqb := list_eqb (list_eqb bytes_eqb).
+
 Inductive case :=
 | CTxMd (inp : bytes) (out : res txmd)
 | CKvMd (inp : bytes) (out : res kvmd)
@@ -71,7 +117,14 @@ Inductive case :=
    bytes allocated during the call *)
 | CPgMsg (maxmsg t : N) (payload : bytes) (out : res pgmsg) (allocated : N)
 (* messageReader.ReadRawMessage on a connection delivering conn then EOF: (type, payload, unread rest) *)
-| CPgFrame (maxmsg : N) (conn : bytes) (out : res (N * bytes * bytes)) (allocated : N).
+| CPgFrame (maxmsg : N) (conn : bytes) (out : res (N * bytes * bytes)) (allocated : N)
+(* a stream handler loop (kind 0: Read, 1: kv, 2: z, 3: verifiable entry, 4: exec-all) run for at
+   most cap steps on a msgReceiver fed with the chunks, then io.EOF (final) or a transport error;
+   bs = buffer / chunk size: the items obtained, panicked?, bytes allocated *)
+| CStream (kind : N) (chunks : list bytes) (final : bool) (bs cap : N)
+          (items : list (list bytes)) (panicked : bool) (allocated : N)
+(* msgReceiver.ReadFully *)
+| CStFully (chunks : list bytes) (final : bool) (out : res bytes) (allocated : N).
 
 Definition case_ok (c : case) : bool :=
   match c with
@@ -93,5 +146,13 @@ Definition case_ok (c : case) : bool :=
   | CPgFrame mx c o a =>
       let m := raw_read mx c in
       res_eqb frame_eqb (fst m) o && alloc_ok (snd m) a
+  | CStream kind chunks final bs cap items p a =>
+      let '(its, pp, al) :=
+        st_drive (st_step_of kind bs) (N.to_nat cap)
+                 (mr_new {| s_chunks := chunks; s_final_eof := final |}) [] 0 in
+      items_eqb its items && Bool.eqb pp p && alloc_ok al a
+  | CStFully chunks final o a =>
+      let m := read_fully stream_is_fixed {| s_chunks := chunks; s_final_eof := final |} in
+      res_eqb bytes_eqb (fst m) o && alloc_ok (snd m) a
   end.
 
